@@ -325,3 +325,7 @@ pub mod lib {
         axiom_starts_with_char,
     }
 }
+
+impl IndentedTracer {
+    pub closed spec fn level(&self) -> usize { self.indentation_level }
+}
